@@ -277,12 +277,17 @@ mod verif_c15 {
     fn fixed_to_f26dot6_to_i32_spec() {
         let x: i32 = kani::any();
         let v = Fixed::from_bits(x);
+        // both conversions are total (wrapping add, as documented by the code) for EVERY x ...
+        let f = v.to_f26dot6().to_bits();
+        let i = v.to_i32();
+        assert!(f == x.wrapping_add(0x200) >> 10 && i == x.wrapping_add(0x8000) >> 16);
+        // ... and equal the mathematical rounding wherever the sum does not leave the i32 range
         if x <= i32::MAX - 0x200 {
-            assert!(v.to_f26dot6().to_bits() as i64 == (x as i64 + 0x200).div_euclid(1024));
+            assert!(f as i64 == (x as i64 + 0x200).div_euclid(1024));
         }
         if x <= i32::MAX - 0x8000 {
             // nearest integer, halves round up
-            assert!(v.to_i32() as i64 == (x as i64 + 0x8000).div_euclid(65536));
+            assert!(i as i64 == (x as i64 + 0x8000).div_euclid(65536));
         }
         let i: i32 = kani::any();
         kani::assume(i >= -32768 && i <= 32767);
@@ -296,8 +301,10 @@ mod verif_c15 {
     #[kani::proof]
     fn f26dot6_int_conversions() {
         let x: i32 = kani::any();
+        let t = F26Dot6::from_bits(x).to_i32();
+        assert!(t == x.wrapping_add(32) >> 6);
         if x <= i32::MAX - 32 {
-            assert!(F26Dot6::from_bits(x).to_i32() as i64 == (x as i64 + 32).div_euclid(64));
+            assert!(t as i64 == (x as i64 + 32).div_euclid(64));
         }
         let i: i32 = kani::any();
         kani::assume(i >= -(1 << 25) && i < (1 << 25));
